@@ -61,6 +61,30 @@ impl Filter for JoinFilter {
     }
 }
 
+/// Values of different kinds are not comparable with each other (`partial_cmp` is `None`).
+/// Treating every such pair as `Equal` is not transitive (`1 == "a"`, `"a" == 0`, `1 > 0`), and
+/// `sort_by` may panic when its comparator is not a total order.  Ordering by kind first keeps
+/// the result unchanged for mutually comparable values and makes mixed input well-defined.
+fn kind_rank(value: &dyn ValueView) -> u8 {
+    if let Some(scalar) = value.as_scalar() {
+        match scalar.type_name() {
+            "whole number" => 0,
+            // NaN is not comparable with anything, not even itself
+            "fractional number" if scalar.to_float().map_or(false, f64::is_nan) => 1,
+            "fractional number" => 0,
+            "boolean" => 2,
+            "date time" | "date" => 3,
+            _ => 4,
+        }
+    } else if value.is_array() {
+        5
+    } else if value.is_object() {
+        6
+    } else {
+        7
+    }
+}
+
 fn nil_safe_compare(a: &dyn ValueView, b: &dyn ValueView) -> Option<cmp::Ordering> {
     if a.is_nil() && b.is_nil() {
         Some(cmp::Ordering::Equal)
@@ -69,7 +93,10 @@ fn nil_safe_compare(a: &dyn ValueView, b: &dyn ValueView) -> Option<cmp::Orderin
     } else if b.is_nil() {
         Some(cmp::Ordering::Less)
     } else {
-        ValueViewCmp::new(a).partial_cmp(&ValueViewCmp::new(b))
+        match kind_rank(a).cmp(&kind_rank(b)) {
+            cmp::Ordering::Equal => ValueViewCmp::new(a).partial_cmp(&ValueViewCmp::new(b)),
+            ordering => Some(ordering),
+        }
     }
 }
 
